@@ -1,8 +1,8 @@
 (* C01  Native dict files: what is written is what is read back.  Layer (b): quoting / literal extraction.
-   (layer (a), the token round trip, is in C01_tok once integrated) *)
+   Layer (a): the token round trip (end of this file). *)
 
 From Coq Require Import NArith ZArith List Bool.
-From DictIO Require Import Chars Str Value Scalar KeyPath SDict Layout Lexer TokParser TreeSpec NativeSpec QuoteProofs.
+From DictIO Require Import Chars Str Value Scalar KeyPath SDict Layout Lexer TokParser TreeSpec NativeSpec QuoteProofs TokProofs.
 Import ListNotations.
 
 (* a string without single quotes, wrapped in single quotes, is found as exactly one single-quoted literal spanning
@@ -32,3 +32,15 @@ Theorem C01_format_choice : forall s, has_char c_dollar s = false -> (has_char c
 Proof. exact format_string_choice. Qed.
 Print Assumptions C01_format_choice.
 
+
+(* ---- layer (a): token hierarchy -> dict / list reconstruction inverts the token grammar ---------------- *)
+(* For every tree (any depth, any width), any rendering of scalars and keys as single plain tokens that the
+   scalar classifier reads back: parsing the token stream of the document reconstructs the tree, same keys in the
+   same order, same nesting of dicts and lists, every leaf re-typed by the classifier. *)
+Theorem C01_tok_roundtrip : forall (lt : scalar -> str) (kt : key -> str) (nv : scalar -> scalar) kvs,
+  (forall v, plain_token (lt v) = true /\ parse_value (lt v) = Ok (nv v)) ->
+  (forall k, plain_token (kt k) = true /\ parse_key (kt k) = Ok k) ->
+  wf (Dict kvs) = true ->
+  parse_tokens (toks_doc lt kt kvs) = Ok (kvs_of (map_leaves nv (Dict kvs))).
+Proof. exact tok_roundtrip. Qed.
+Print Assumptions C01_tok_roundtrip.
